@@ -467,6 +467,11 @@ func (f *STFS) OpenFile(name string, flag int, perm os.FileMode) (afero.File, er
 
 		f.onHeader,
 	)
+	if err == nil && flag&os.O_CREATE != 0 && flag&os.O_EXCL != 0 {
+		// `O_EXCL` asks for an entry that does not exist yet
+		return nil, os.ErrExist
+	}
+
 	if err != nil {
 		if err == sql.ErrNoRows {
 			hdr, err = inventory.Stat(
@@ -479,7 +484,7 @@ func (f *STFS) OpenFile(name string, flag int, perm os.FileMode) (afero.File, er
 			)
 
 			createFile := func() error {
-				if !f.readOnly && flag&os.O_CREATE != 0 && flag&os.O_EXCL == 0 {
+				if !f.readOnly && flag&os.O_CREATE != 0 {
 					if parent, err := inventory.Stat(
 						f.metadata,
 
